@@ -3,7 +3,7 @@ import base64, hashlib, json, os, random, struct, threading, time, zlib
 from vlib import common, coq, gobuild, gw, s3c, e2e, hooks
 from vlib.common import coq_list
 
-THEOREMS = ["C05_reads_return_one_write", "C05_linearizable", "C05_log_events_are_requests", "C05_overwritten_key_never_missing", "C05_read_after_ack_is_fresh"]
+THEOREMS = ["C05_reads_return_one_write", "C05_linearizable", "C05_log_events_are_requests", "C05_overwritten_key_never_missing", "C05_read_after_ack_is_fresh", "C05_publishes_once"]
 TARGETS = ["Properties/C05.vo", "Check/PublishCheck.vo"]
 CONFIGS = [("otmpfile", {"iam": False}), ("named-temp", {"iam": False, "otmp": False})]
 
@@ -151,6 +151,23 @@ def schedules(chk, gwbin, label, cfg, mcases):
                 rd, w, parked = hooks.held(hk, s_, get(A, k, "HEAD"), writer(B, k, new))
                 report("head|%s-overwrite" % wname, s_, k, old, new, [("HEAD overlapping the overwrite", classify(rd))] if parked else [], parked, {old, new})
                 hk.clear()
+        # 2c. a reader parked; an overwrite is acknowledged; a second, identical read issued after the acknowledgement must show the new
+        # write although the older read is still in flight (a read is never answered from another read that started earlier)
+        C = s3c.Client(g.port, "root", "rootsecret")
+        for s_, method in (("posix.headobject.statted", "HEAD"), ("posix.headobject.opened", "HEAD"), ("posix.getobject.statted", "GET"), ("posix.getobject.opened", "GET")):
+            k, old, new = fresh_key()
+            def second(k=k, new=new, method=method):
+                w = B.req("PUT", "/bkt/" + k, body=body_of(new), headers=write_headers(new, cksum=True))
+                # (short timeout: a read that waits for the parked one would otherwise wait for the release below)
+                r2 = C.req(method, "/bkt/" + k, headers={"x-amz-checksum-mode": "ENABLED"}, timeout=4)
+                return w, r2
+            rd, wr, parked = hooks.held(hk, s_, get(A, k, method), second)
+            if parked and wr is not None and wr[0].status == 200:
+                c2 = classify(wr[1]) if wr[1].status != -1 else ("error", "no answer within 4 s while the older %s was parked" % method)
+                report("second-%s-after-acknowledged-put" % method.lower(), s_, k, old, new, [("second %s, issued after the acknowledged overwrite while the first is parked" % method, c2)], True, {new})
+            else:
+                report("second-%s-after-acknowledged-put" % method.lower(), s_, k, old, new, [], parked and False, {new})
+            hk.clear()
         # 3. two writers: the first parked at each step while the second completes
         for s_ in WRITE_SITES:
             k, old, new = fresh_key()
@@ -314,9 +331,17 @@ def run(chk):
                 "multipart completion) replaces a write that had all of it, in the xattr, sidecar and versioned configurations. Reads ask for the stored checksum "
                 "(x-amz-checksum-mode), which identifies the write as well. Non-trivial: every case; distinct by schedule.")
     gwbin = gobuild.build_gateway("verif")
+    from vlib import gen
+    gen.regenerate()
     built = coq.ensure_built(chk, TARGETS)
     if built:
         coq.check_assumptions(chk, "Properties.C05", THEOREMS)
+    else:
+        rc_, out_ = coq.run_cases("C05_rows", "From VGW Require Import Gen.LinkCalls Check.LinkOnceCheck.\nFrom Coq Require Import List.\nImport ListNotations.\n"
+                                  "Definition BL := Eval vm_compute in map (fun e => List.length (snd e)) (link_bad posix_link_calls).\nPrint BL.\nEval vm_compute in link_bad posix_link_calls.\n")
+        bl = coq.printed_list(out_, "BL")
+        if bl:
+            chk.obligation("functions of backend/posix/posix.go that call link() on a temporary file other than exactly once: %s" % " ".join(out_.split())[-300:], False, str(bl))
     mcases = []
     for label, cfg in CONFIGS:
         schedules(chk, gwbin, label, cfg, mcases)
